@@ -90,15 +90,31 @@ def gen(tier, rng):
                 cases.append("slice %s raw:%s" % (ctx, hx(nal)))
             elif t == 6:
                 cases.append("sei nal:c:%s 0" % hx(nal))
+    # NALs to 16 MiB (thorough 64 MiB) in several pushes, zero padding to 64 KiB, empty units ahead of long ones - through
+    # AnnexBReader::accumulate with an always-Buffer handler, described by sizes: implementation only, judged by big_check
+    # (every complete NAL is exactly a unit of the segmentation, every incomplete view a prefix of it)
+    from vlib.annexb_util import big_scripts
+    for sc in big_scripts(rng, tier):
+        cases.append("!annexbig A " + sc)
     return cases
 
 
+def extra_check(r):
+    if r["case"].lstrip("!").startswith("annexbig"):
+        from vlib.annexb_util import big_check
+        d = big_check(r["case"], r["dev"])
+        return ("value", d) if d else None
+    return None
+
+
 def nontrivial(r):
-    return r["dev"].count("N:") >= 2 or not r["case"].startswith("pipeline")
+    return r["case"].startswith("!") or r["dev"].count("N:") >= 2 or not r["case"].startswith("pipeline")
 
 
 def classify(r):
     c = r["case"].split()
+    if c[0].startswith("!"):
+        return ["annexbig"]
     if c[0] != "pipeline":
         return ["alone_" + c[0]]
     a = r["dev"]
